@@ -163,6 +163,28 @@ def inputs(ctx):
             if serialise(c["items"], fmt) is not None and _admissible(c["items"], fmt):
                 ins.append({"id": "g%d" % n, "fmt": fmt, "cues": [c["items"], [{"t": "ch", "c": 122}]]})
                 n += 1
+    # authored text that looks like markup once its references are decoded (a reader that strips tags
+    # after decoding eats it), in every format
+    def chs(text):
+        return [{"t": "ch", "c": ord(c)} for c in text]
+    looks = ["use <i> for italics", "x<c and c>y", "<v Bob> hi", "wait <00:00:05.000> here", "a<b and c>d", "x</i>y",
+             "<ruby>x</ruby>", "<lang en>x", "<b>bold</b>", "a<u>b", "<c.yellow>x</c>", "1 < 2 > 0", "a<>b", "<!-- x -->y",
+             "a<br>b", "a<br/>b", "<span>x</span>", "<p>x", "a<i", "i>a", "a <i b", "<1>x", "AT&T <i>Corp</i>", "a<rt>b</rt>",
+             "x <v.loud Ann>y", "</v>x", "<i>", "a&lt;i&gt;b", "a&amp;lt;b", "&#60;i&#62;x"]
+    for text in looks:
+        for fmt in FORMATS:
+            items = chs(text)
+            if serialise(items, fmt) is not None and _admissible(items, fmt):
+                ins.append({"id": "k%d" % n, "fmt": fmt, "cues": [items, chs("z")]})
+                n += 1
+    # a text node that is wrapped over source lines AND touches an inline element with a space
+    for fmt, kinds in (("DFXP", ["span", "spanstyle"]), ("SAMI", ["i", "b", "u", "span", "spanstyle"])):
+        for kind in kinds:
+            for lead, trail in (("cd ", " gh"), ("cd", " gh"), ("cd ", "gh"), ("cd  ", "  gh")):
+                items = (chs("ab") + [{"t": "wrap"}] + chs(lead) + [{"t": "tag", "kind": kind, "open": True}] + chs("ef") +
+                         [{"t": "tag", "kind": kind, "open": False}] + chs(trail) + [{"t": "wrap"}] + chs("ij"))
+                ins.append({"id": "k%d" % n, "fmt": fmt, "cues": [items, chs("z")]})
+                n += 1
     vocab_ch = [97, 98, 32, 38, 60, 62, 39, 34, 233, 0x4e2d, 0x1f600, 45, 59, 35]
     for k in range(800 if ctx.quick else 40000):
         fmt = rng.choice(FORMATS)
